@@ -23,6 +23,8 @@ TABLE = [
      {0: ["issues"], 1: ["issues"], 2: ["issues"]}),
     ("C08.structure_each_column", "C08", [], SV, "SidecarValidator.validate_structure", {0: ["all_validation_issues"]}),
     ("C08.categorical_each_key", "C08", [], SV, "SidecarValidator._validate_categorical_column", {0: ["val_issues"]}),
+    ("C08.nested_key_search_every_value", "C08", [], SV, "SidecarValidator._check_dict", {0: []}),
+    ("C08.nested_key_search_every_item", "C08", [], SV, "SidecarValidator._check_list", {0: []}),
     ("C08.definition_spot_each_column", "C08", [], SV, "SidecarValidator._check_definitions_bad_spot", {0: ["issues"], 1: ["issues"]}),
     ("C14.attributes_each_entry", "C14", [], SC, "SchemaValidator.check_attributes", {0: ["issues_list"], 1: ["issues_list"]}),
     ("C14.tag_entry_attributes_each", "C14", [], SC, "SchemaValidator._check_tag_entry_attributes", {0: ["issues_list"]}),
